@@ -2,7 +2,7 @@ PROPS["C01"] = {
     "level": "proof",
     "explanation": "Memory-safety obligations (pointer dereference, bounds, pointer arithmetic, conversions, signed overflow, libc preconditions) that CBMC generates for every function under contract in this framework, plus units that exist only for safety.",
     "slice": "see functions_under_contract",
-    "not_reached": "re2c scanners/lexers, lemon parsers, miniz, uthash, argtable; writer switch bodies beyond the per-token-type units",
+    "not_reached": "re2c scanners/lexers, lemon parsers, miniz, uthash beyond one-entry tables with concrete keys, argtable; writer switch bodies beyond the per-token-type units",
     "trusted_base": ["cbmc/goto-cc/goto-instrument 6.11.0", "lib/libc_stubs.c"],
     "assumptions": [LIBC_ASSUME, NOFAIL],
 }
